@@ -187,7 +187,7 @@ Definition idx_checkable (c : cfg) (ks : list keyfn) (l : list sobs) : bool :=
 Definition viol_idx (c : cfg) (typed : bool) (l : list sobs) : list N :=
   match idxs c with
   | Some ks =>
-    if (typed || match c_ty c with TyAny => true | TyNum => false end) && idx_checkable c ks l && negb (forallb (fun o => ents_eqb (g_idx o) (idx_spec ks (g_stored o))) l)
+    if (typed || match c_ty c with TyAny => true | _ => false end) && idx_checkable c ks l && negb (forallb (fun o => ents_eqb (g_idx o) (idx_spec ks (g_stored o))) l)
     then [10] else []
   | None => []
   end.
